@@ -11,12 +11,13 @@ export LD_LIBRARY_PATH="$PYLIB${LD_LIBRARY_PATH:+:$LD_LIBRARY_PATH}"
 LOG="$SEED/eval.log"; : > "$LOG"; exec > >(tee "$SEED/result.txt") 2>&1
 demo_place=$(python3 -c "import json,sys; print(json.load(open(sys.argv[1]))['demo_path'])" "$SEED/meta.json")
 demo_pkg=$(python3 -c "import json,sys; print(json.load(open(sys.argv[1]))['demo_package'])" "$SEED/meta.json")
+demo_flags=$(python3 -c "import json,sys; print(json.load(open(sys.argv[1])).get('demo_cargo_flags',''))" "$SEED/meta.json")
 demo_name=$(basename "$demo_place" .rs)
 cd "$WT" || exit 2
 git checkout -q -- . ; git clean -fdq -e seeded -e target ; rm -f "$WT/$demo_place"
 # 1. demo passes on the unchanged code
-cp "$SEED/demo.rs" "$WT/$demo_place"
-if cargo test --offline -p "$demo_pkg" --test "$demo_name" >>"$LOG" 2>&1; then echo "demo-without-change: pass"; else echo "demo-without-change: FAIL (unexpected)"; fi
+mkdir -p "$(dirname "$WT/$demo_place")"; cp "$SEED/demo.rs" "$WT/$demo_place"
+if cargo test --offline -p "$demo_pkg" $demo_flags --test "$demo_name" >>"$LOG" 2>&1; then echo "demo-without-change: pass"; else echo "demo-without-change: FAIL (unexpected)"; fi
 # 2. apply the change: builds, baseline unchanged, demo fails
 if ! git apply "$SEED/patch.diff" 2>>"$LOG"; then echo "patch does not apply"; exit 2; fi
 rm -f "$WT/$demo_place"
@@ -25,8 +26,8 @@ failed=$(grep -E "^test .* \.\.\. FAILED" "$SEED/baseline_with_change.log" | sor
 nfail=$(grep -cE "^test .* \.\.\. FAILED" "$SEED/baseline_with_change.log")
 npass=$(grep -E "^test result" "$SEED/baseline_with_change.log" | awk '{s+=$4} END {print s}')
 echo "baseline-with-change: passed=$npass failed=$nfail [$failed]"
-cp "$SEED/demo.rs" "$WT/$demo_place"
-if cargo test --offline -p "$demo_pkg" --test "$demo_name" >>"$LOG" 2>&1; then echo "demo-with-change: pass (unexpected)"; else echo "demo-with-change: FAIL (expected)"; fi
+mkdir -p "$(dirname "$WT/$demo_place")"; cp "$SEED/demo.rs" "$WT/$demo_place"
+if cargo test --offline -p "$demo_pkg" $demo_flags --test "$demo_name" >>"$LOG" 2>&1; then echo "demo-with-change: pass (unexpected)"; else echo "demo-with-change: FAIL (expected)"; fi
 git checkout -q -- . ; git clean -fdq -e seeded -e target ; rm -f "$WT/$demo_place"
 # 3. the framework against the change, in /repo
 cd /repo && git apply "$SEED/patch.diff" || { echo "patch does not apply to /repo"; exit 2; }
